@@ -192,12 +192,14 @@ def Server.runIPServer : List Row := [
   (4, "cookies = append(cookies, cookie)"),  -- Nts.freshCookies: ecEncode ec :: cs (first encrypted cookie first)
   (4, "addedCookie = true"),  -- Nts.serverReplyG: fresh.isEmpty = false
   (3, "if !addedCookie"),  -- Nts.serverReplyG: if fresh.isEmpty then .err .noCookies; ServerReply.serve folds it into ntsOk = false
-  (4, "continue"),  -- UNMODELLED: continue AFTER handleRequest recorded (rx, txt0): no reply, no updateTXTimestamp; models drop earlier
+  (4, "updateTXTimestamp(clientID, rxt, &txt0)"),  -- ListenerTx.stepEv | .unsent: u := updateTX hr.st cl hr.rxt hr.txt (F21 repair; the value recorded is handed back: entry removed, C06_tx_unsent_dropped)
+  (4, "continue"),  -- ListenerTx.stepEv | .unsent (no cookie could be encrypted): recorded, nothing sent, exchange removed; old code: codeUnsentOld (F21)
   (3, "ntsresp := nts.NewResponsePacket(cookies, serverCookie.S2C, ntsreq.UniqueID.ID)"),  -- Nts.serverReplyG: pkt <- newResponsePacketG fixed fresh sc.x d.uid (sc.x = S2C; .panic .index on an empty list)
   (3, "nts.EncodePacket(&buf, &ntsresp)"),  -- Nts.serverReplyG: encodePacketG fixed A hdr pkt (draw16 rnd').1 (pack errors panic: errToPanic); c10 op srv.reply
   (2, "n, err = conn.WriteToUDPAddrPort(buf, srcAddr)"),  -- ListenerTx.sendRead: s1 := s.send kb (LSock.send: kernel numbers the datagram); pin C06_pin_txPostSend: 1 site
   (2, "if err != nil || n != len(buf)"),  -- pin C06_pin_txPostSend (x_c06tx.go): send followed by its err != nil check; the failure is no model input (row 76)
-  (3, "continue"),  -- UNMODELLED: write failed after handleRequest recorded (rx, txt0): no Ev for it; txid kept though kernel may count
+  (3, "updateTXTimestamp(clientID, rxt, &txt0)"),  -- ListenerTx.stepEv | .unsent: u := updateTX hr.st cl hr.rxt hr.txt (F21 repair; the value recorded is handed back: entry removed, C06_tx_unsent_dropped)
+  (3, "continue"),  -- ListenerTx.stepEv | .unsent (failed / short write): socket untouched (kernel assumed not to count it), exchange removed; old: codeUnsentOld
   (2, "txt1, id, err := udp.ReadTXTimestamp(conn)"),  -- ListenerTx.reads: first call (kernelRead; ListenerTx.readTX, harness c06tx op udp.rtx); pin C06_pin_txPostSend
   (2, "for err == nil && int32(id-txid) < 0"),  -- ListenerTx.reads: if fixed && decide (s.id < txid) (F20 repair; Nat instead of the int32 wrap-around comparison)
   (3, "txt1, id, err = udp.ReadTXTimestamp(conn)"),  -- ListenerTx.reads: recursive call, nreads + 1 (Props C06Tx.C09_reads_bounded)
@@ -331,23 +333,35 @@ def Server.runSCIONServer : List Row := [
   (3, "if err != nil"),  -- env: tests the serialiser's error; consequence see row 115
   (4, "panic(err)"),  -- UNMODELLED: panic(err) when UDP.SerializeTo fails (checksum over the SCION pseudo header)
   (3, "buffer.PushLayer(udpLayer.LayerType())"),  -- env: gopacket layer bookkeeping
-  (3, "if len(oob) != 0"),  -- UNMODELLED: forwarding: a kernel rx timestamp, if read, is appended to the packet as an E2E option; Fwd.pkt := p has none
-  (4, "tsOpt.OptType = scion.OptTypeTimestamp"),  -- UNMODELLED: option type 253 (scion.OptTypeTimestamp) of the appended option
-  (4, "tsOpt.OptData = oob"),  -- UNMODELLED: option data = raw kernel control-message bytes (oob) of this datagram: a linux cmsg is put on the wire
-  (4, "tsOpt.OptAlign[0] = 0"),  -- UNMODELLED: alignment of the appended option reset
-  (4, "tsOpt.OptAlign[1] = 0"),  -- UNMODELLED: alignment of the appended option reset
-  (4, "tsOpt.OptDataLen = 0"),  -- UNMODELLED: stale OptDataLen of the reused option struct reset
-  (4, "tsOpt.ActualLength = 0"),  -- UNMODELLED: stale ActualLength of the reused option struct reset
-  (4, "if scionLayer.NextHdr != slayers.End2EndClass"),  -- UNMODELLED: decision: no E2E extension directly after the SCION header (also true when a hop-by-hop extension comes first)
-  (5, "e2eLayer = slayers.EndToEndExtn{}"),  -- UNMODELLED: fresh empty E2E extension replaces whatever e2eLayer held
-  (5, "e2eLayer.NextHdr = slayers.L4UDP"),  -- UNMODELLED: fresh extension's NextHdr := UDP
-  (5, "scionLayer.NextHdr = slayers.End2EndClass"),  -- UNMODELLED: SCION NextHdr := End2EndClass (a received HopByHopClass is overwritten: HBH header dropped from the forward)
-  (4, "e2eLayer.Options = append(e2eLayer.Options, tsOpt)"),  -- UNMODELLED: timestamp option appended after the options the packet already carried
-  (3, "if scionLayer.NextHdr == slayers.End2EndClass"),  -- UNMODELLED: E2E ext re-serialised only if directly after SCION hdr; oob empty + NextHdr = HBH: no ext written, NextHdr kept
-  (4, "err = e2eLayer.SerializeTo(buffer, options)"),  -- env: slayers serialisation of the E2E extension
-  (4, "if err != nil"),  -- env: tests the serialiser's error; consequence see row 132
+  (3, "hasHBH := scionLayer.NextHdr == slayers.HopByHopClass"),  -- ScionSrv.fwdWire: p.hbh.isSome (ScionSrv.recvNext p = .hbh): the received packet's first extension is hop-by-hop
+  (3, "hasE2E := decoded[len(decoded)-2] == slayers.LayerTypeEndToEndExtn"),  -- ScionSrv.fwdWire: recvd := if p.e2e then some (recvOpts p) else none (an end-to-end extension directly precedes the UDP header)
+  (3, "if len(oob) != 0"),  -- ScionSrv.fwdWire: if p.stamp (a kernel rx timestamp came with the datagram; harness c13 srv.fwd zone=sw|none)
+  (4, "tsOpt.OptType = scion.OptTypeTimestamp"),  -- ScionSrv.EOpt.ownTs: option type 253 (pin C13_pin_OptTypeTimestamp; driver / harness print 253:ts)
+  (4, "tsOpt.OptData = oob"),  -- ScionSrv.EOpt.ownTs: option data = raw kernel control-message bytes (oob) of this datagram (opaque in the model)
+  (4, "tsOpt.OptAlign[0] = 0"),  -- env: alignment of the appended option reset (no padding in front of it)
+  (4, "tsOpt.OptAlign[1] = 0"),  -- env: alignment of the appended option reset
+  (4, "tsOpt.OptDataLen = 0"),  -- env: stale OptDataLen of the reused option struct reset (FixLengths recomputes it)
+  (4, "tsOpt.ActualLength = 0"),  -- env: stale ActualLength of the reused option struct reset
+  (4, "if !hasE2E"),  -- ScionSrv.fwdWire: recvd.getD [] (no end-to-end extension received: a new, empty one)
+  (5, "e2eLayer = slayers.EndToEndExtn{}"),  -- ScionSrv.fwdWire: recvd.getD [] = [] (whatever e2eLayer held from an earlier packet is discarded)
+  (5, "e2eLayer.NextHdr = slayers.L4UDP"),  -- ScionSrv.Wire.e2e: its NextHdr is always UDP
+  (5, "hasE2E = true"),  -- ScionSrv.fwdWire: e2e := some (..) when p.stamp
+  (4, "e2eLayer.Options = append(e2eLayer.Options, tsOpt)"),  -- ScionSrv.fwdWire: recvd.getD [] ++ [.ownTs] (C13_forward_e2e_options: received options first, in order)
+  (3, "if hasE2E"),  -- ScionSrv.fwdWire: e2e.isSome
+  (4, "err = e2eLayer.SerializeTo(buffer, options)"),  -- env: slayers serialisation of the E2E extension (options as decoded, padding options included; harness c13 srv.fwd re-parses it)
+  (4, "if err != nil"),  -- env: tests the serialiser's error; consequence see next row
   (5, "panic(err)"),  -- UNMODELLED: panic(err) when EndToEndExtn.SerializeTo fails (NextHdr check, length not a multiple of 4)
   (4, "buffer.PushLayer(e2eLayer.LayerType())"),  -- env: gopacket layer bookkeeping
+  (4, "if !hasHBH"),  -- ScionSrv.fwdWire: next := if p.hbh.isSome then .hbh else after
+  (5, "scionLayer.NextHdr = slayers.End2EndClass"),  -- ScionSrv.fwdWire: next := after = .e2e
+  (3, "if hasHBH"),  -- ScionSrv.fwdWire: hbh := p.hbh.map fun b => (after, b)
+  (4, "b, err := buffer.PrependBytes(len(hbhLayer.Contents))"),  -- env: room for the hop-by-hop extension in front of what has been serialised
+  (4, "if err != nil"),  -- env: PrependBytes of the gopacket buffer always returns nil
+  (5, "panic(err)"),  -- env: unreachable, see previous row
+  (4, "copy(b, hbhLayer.Contents)"),  -- ScionSrv.fwdWire: hbh bytes as received (C13_forward_hbh_preserved)
+  (4, "if hasE2E"),  -- ScionSrv.fwdWire: after := if e2e.isSome then .e2e else .udp
+  (5, "b[0] = uint8(slayers.End2EndClass)"),  -- ScionSrv.fwdWire: the extension's NextHdr field := after (C13_forward_parses)
+  (4, "buffer.PushLayer(hbhLayer.LayerType())"),  -- env: gopacket layer bookkeeping
   (3, "err = scionLayer.SerializeTo(buffer, options)"),  -- env: slayers serialisation of the SCION header as received (Fwd.pkt; fields compared by harness c13 fmtForward)
   (3, "if err != nil"),  -- env: tests the serialiser's error; consequence see row 136
   (4, "panic(err)"),  -- UNMODELLED: panic(err) when SCION.SerializeTo fails
@@ -432,7 +446,8 @@ def Server.runSCIONServer : List Row := [
   (3, "scionLayer.RawDstAddr, scionLayer.RawSrcAddr = scionLayer.RawSrcAddr, scionLayer.RawDstAddr"),  -- ScionSrv.mkReply: srcAddr := p.dstAddr, dstAddr := p.srcAddr
   (3, "scionLayer.Path, err = scionLayer.Path.Reverse()"),  -- ScionSrv.Pkt.rev: oracle Path.Reverse()
   (3, "if err != nil"),  -- ScionSrv.handleG (udp): match p.rev | none => if fixed then .drop "reverse" (old: panic, F4c)
-  (4, "continue"),  -- UNMODELLED: drop AFTER handleRequest: store already holds (rx, txt0) for clientID, no reply sent, updateTXTimestamp skipped
+  (4, "updateTXTimestamp(clientID, rxt, &txt0)"),  -- ListenerTx.stepEv | .unsent: u := updateTX hr.st cl hr.rxt hr.txt (F21 repair; the value recorded is handed back: entry removed, C06_tx_unsent_dropped)
+  (4, "continue"),  -- ListenerTx.stepEv | .unsent (path not reversible; c06tx event r): recorded, nothing sent, exchange removed; old: codeUnsentOld, C06_old_code_unsent_exchange_served_counterexample
   (3, "scionLayer.PathType = scionLayer.Path.Type()"),  -- ScionSrv.mkReply: pathType := rt (fixed)
   (3, "scionLayer.NextHdr = slayers.L4UDP"),  -- ScionSrv.ntpReply: l4 := .udp
   (3, "udpLayer.DstPort, udpLayer.SrcPort = udpLayer.SrcPort, udpLayer.DstPort"),  -- ScionSrv.ntpReply: srcPort := p.dstPort, dstPort := p.srcPort (Props C13_reply_udp)
@@ -449,7 +464,8 @@ def Server.runSCIONServer : List Row := [
   (5, "cookies = append(cookies, cookie)"),  -- Nts.freshCookies: ecEncode ec :: cs
   (5, "addedCookie = true"),  -- Nts.serverReplyG: fresh non-empty
   (4, "if !addedCookie"),  -- Nts.serverReplyG: if fresh.isEmpty then .err .noCookies; ServerReply ntsOk includes 'one fresh cookie'
-  (5, "continue"),  -- UNMODELLED: drop AFTER handleRequest (no fresh cookie sealed): store already mutated, updateTXTimestamp skipped
+  (5, "updateTXTimestamp(clientID, rxt, &txt0)"),  -- ListenerTx.stepEv | .unsent: u := updateTX hr.st cl hr.rxt hr.txt (F21 repair; the value recorded is handed back: entry removed, C06_tx_unsent_dropped)
+  (5, "continue"),  -- ListenerTx.stepEv | .unsent (no cookie could be encrypted): exchange removed; old: codeUnsentOld
   (4, "ntsresp := nts.NewResponsePacket(cookies, serverCookie.S2C, ntsreq.UniqueID.ID)"),  -- Nts.newResponsePacketG fixed fresh sc.x d.uid (S2C key = sc.x)
   (4, "nts.EncodePacket(&udpLayer.Payload, &ntsresp)"),  -- Nts.encodePacketG fixed A hdr pkt nonce
   (3, "payload := gopacket.Payload(udpLayer.Payload)"),  -- ScionSrv.RPayload.ntpResponse (payload of the reply)
@@ -483,7 +499,8 @@ def Server.runSCIONServer : List Row := [
   (3, "buffer.PushLayer(scionLayer.LayerType())"),  -- env: gopacket layer bookkeeping
   (3, "n, err = conn.WriteToUDPAddrPort(buffer.Bytes(), lastHop)"),  -- ListenerTx.LSock.send in sendRead (stepEv | .ntp); ScionSrv.mkReply: nextHop := p.lastHop; pin C06_pin_txPostSend site 3
   (3, "if err != nil || n != len(buffer.Bytes())"),  -- ListenerTx: no Ev for a failed write (stepEv | .ntp always sends); assumed not counted by the kernel (notes/C06Tx)
-  (4, "continue"),  -- UNMODELLED: failed write AFTER handleRequest: continue skips txid bookkeeping and updateTXTimestamp, store holds (rx, txt0)
+  (4, "updateTXTimestamp(clientID, rxt, &txt0)"),  -- ListenerTx.stepEv | .unsent: u := updateTX hr.st cl hr.rxt hr.txt (F21 repair; the value recorded is handed back: entry removed, C06_tx_unsent_dropped)
+  (4, "continue"),  -- ListenerTx.stepEv | .unsent (failed / short write): txid and socket untouched, exchange removed; old: codeUnsentOld
   (3, "txt1, id, err := udp.ReadTXTimestamp(conn)"),  -- ListenerTx.reads: first ReadTXTimestamp (readTX); pin C06_pin_txPostSend srcPostSendNtp
   (3, "for err == nil && int32(id-txid) < 0"),  -- ListenerTx.reads: fixed && s.id < txid
   (4, "txt1, id, err = udp.ReadTXTimestamp(conn)"),  -- ListenerTx.reads: recursive call (txt1 of the last read is kept)
